@@ -20,6 +20,7 @@ import Bee2V.C05.ModelMisc
 import Bee2V.C05.ModelGf2
 import Bee2V.C05.ModelZm
 import Bee2V.C05.ModelPpDiv
+import Bee2V.C05.ModelGf2Ops
 namespace Bee2V.C05.Drv
 open Bee2V.Proto Bee2V.C05 Bee2V.C05.Spec
 
@@ -738,12 +739,7 @@ def modelW (W : Nat) (f : String) (args : List String) : Option String :=
     else
     let b ← if op == "sqr" then some a else
       (if pat == "ab" || pat == "cab" then some a else (rest.drop 1).head?.bind el)
-    let prod := if op == "sqr" then ppSqr W a else ppMul W a b
-    let r :=
-      if l = 0 then
-        let p := Gf2Trinom.create W m k
-        if p.bk = 0 then gf2RedTrinomial0 W prod n p else gf2RedTrinomial1 W prod n p
-      else gf2RedPentanomial W prod n (Gf2Pentanom.create W m k l l1)
+    let r := if op == "sqr" then gf2Sqr W m k l l1 a else gf2Mul W m k l l1 a b
     some (join [toString n, toString no, hl W r, ho no (val W r)])
   -- ModelPp (binary algorithms over GF(2)[x], value level)
   | "ppGCD", [a, b] => do let (n, a) ← pw W a; let (m, b) ← pw W b; some (hw W (min n m) (ppGCDV a b))
